@@ -1775,6 +1775,12 @@ _g_ir_node_build_typelib (GIrNode         *node,
 	blob->name = _g_ir_write_string (node->name, strings, data, offset2);
 	blob->signature = signature;
 
+        /* the attributes of the return value belong to the signature, as for functions */
+        build->nodes_with_attributes = g_list_prepend (build->nodes_with_attributes, function->result);
+        build->n_attributes += g_hash_table_size (((GIrNode *) function->result)->attributes);
+        g_assert (((GIrNode *) function->result)->offset == 0);
+        ((GIrNode *) function->result)->offset = signature;
+
         _g_ir_node_build_typelib ((GIrNode *)function->result->type,
 				 node, build, &signature, offset2, NULL);
 
@@ -1896,6 +1902,12 @@ _g_ir_node_build_typelib (GIrNode         *node,
 	blob->struct_offset = vfunc->offset;
 	blob->reserved2 = 0;
 	blob->signature = signature;
+
+        /* the attributes of the return value belong to the signature, as for functions */
+        build->nodes_with_attributes = g_list_prepend (build->nodes_with_attributes, vfunc->result);
+        build->n_attributes += g_hash_table_size (((GIrNode *) vfunc->result)->attributes);
+        g_assert (((GIrNode *) vfunc->result)->offset == 0);
+        ((GIrNode *) vfunc->result)->offset = signature;
 
         _g_ir_node_build_typelib ((GIrNode *)vfunc->result->type,
 				 node, build, &signature, offset2, NULL);
